@@ -101,7 +101,7 @@ def m_output_result(out, mc, results):
     cex = None
     n_checked = 0
     seen_shapes = set()
-    deadline = time.time() + float(os.environ.get("VERIF_SYMEX_BUDGET_S", "600"))
+    deadline = time.time() + float(os.environ.get("VERIF_SYMEX_BUDGET_S", "900"))
     for p in rets:
         if time.time() > deadline:
             # not a verdict: the obligation stays open and only a native confirmation can turn it into a VIOLATION
